@@ -1,6 +1,6 @@
 (* Top-level dispatcher of the extracted model: first token selects the domain. *)
 From Coq Require Import List NArith Bool String.
-From PyFS Require Import Base.PyStr Base.Render Path.PathRun.
+From PyFS Require Import Base.PyStr Base.Render Path.PathRun FS.Ops FS.FsRun.
 Import ListNotations.
 Local Open Scope string_scope.
 
@@ -8,6 +8,7 @@ Definition dispatch (tokens : list str) : str :=
   match tokens with
   | dom :: name :: args =>
     if is_name dom "path" then run_path name args
+    else if is_name dom "fs" then run_fs2 name args
     else lit "?domain"
   | _ => lit "?empty"
   end.
